@@ -562,6 +562,52 @@ impl World {
             .collect()
     }
 
+    /// The (old, new) pairs of the reflog of `name` in short object names (`0` = null id), or
+    /// `None` if there is no reflog file.
+    pub fn reflog_lines(&self, name: &str) -> Option<Vec<(String, String)>> {
+        let path = self.git_dir.join("logs").join(name);
+        if !path.is_file() {
+            return None;
+        }
+        let data = std::fs::read(&path).ok()?;
+        let short = |hex: &str| -> String {
+            if hex.bytes().all(|b| b == b'0') {
+                return "0".into();
+            }
+            match gix_hash::ObjectId::from_hex(hex.as_bytes()) {
+                Ok(id) => self.short(&id),
+                Err(_) => "?".into(),
+            }
+        };
+        Some(
+            String::from_utf8_lossy(&data)
+                .lines()
+                .map(|l| {
+                    let mut it = l.split(' ');
+                    let a = it.next().unwrap_or("");
+                    let b = it.next().unwrap_or("");
+                    (short(a), short(b))
+                })
+                .collect(),
+        )
+    }
+
+    /// `dump()` plus the reflogs: ` logs=<name>@<old>><new>,…;<name>@…` (`-` if there is none)
+    pub fn dump_x(&self) -> String {
+        let mut parts = Vec::new();
+        for n in NAMES {
+            if let Some(lines) = self.reflog_lines(n) {
+                let l: Vec<String> = lines.iter().map(|(a, b)| format!("{a}>{b}")).collect();
+                parts.push(format!("{n}@{}", l.join(",")));
+            }
+        }
+        format!(
+            "{} logs={}",
+            self.dump(),
+            if parts.is_empty() { "-".to_string() } else { parts.join(";") }
+        )
+    }
+
     /// All `*.lock` files below the git directory (relative, without the suffix), sorted.
     pub fn lock_files(&self) -> Vec<String> {
         let mut out = Vec::new();
